@@ -93,6 +93,7 @@ class Profile:
     unaligned_pins: bool = False
     rates: bool = False
     day_efforts: bool = True
+    alap_always: bool = False  # with alap_project: every generated project is a backward project
     unequal_teams: bool = False  # teams whose members have different efficiencies (C12 only)
     year_end_holidays: bool = False  # global shutdown across New Year when the horizon contains one
     forward_refs: bool = True  # dependencies on tasks that are declared later in the file
@@ -219,7 +220,7 @@ def project_specs(draw, pf: Profile):
     if pf.durs:
         spec.dur = draw(st.sampled_from(pf.durs))
         span = max(2, min(60, (spec.end() - spec.start).days))
-    if pf.alap_project and draw(st.integers(0, 2)) == 0:
+    if pf.alap_project and (pf.alap_always or draw(st.integers(0, 2)) == 0):
         spec.sched = "alap"
 
     # ---- global holidays ------------------------------------------------------------
@@ -309,7 +310,17 @@ def project_specs(draw, pf: Profile):
                 c.shift = None
                 if not pf.zones:
                     c.tz = None
-        spec.resources = [g] + leafs[k:]
+        rest = leafs[k:]
+        if rest and draw(st.integers(0, 2)) == 0:
+            # a second level: a department that holds the group and some more people
+            dept = Res("dept")
+            j = draw(st.integers(1, len(rest)))
+            dept.children = [g] + rest[:j]
+            if pf.limits and draw(st.integers(0, 3)) > 0:
+                dept.limits = _limits(draw, res_min)
+            spec.resources = [dept] + rest[j:]
+        else:
+            spec.resources = [g] + rest
     else:
         spec.resources = leafs
     rmap = {r.id: r for r in leafs}
